@@ -284,6 +284,280 @@ def single_reports():
             yield fn, L, ty, bad
 
 
+COLLECTION = re.compile(r"^std::vec::Vec<(?:[a-z_0-9]+::)*report::Report>$")
+
+
+def received_collections():
+    """yield (fn, local, type, escape) for every local holding a *collection* of reports that was taken out of another
+    value (the payload of a call's result, e.g. the warnings returned next to a parsed file): such a collection may be
+    non-empty, so every path from there must hand it on - move it, append it (`&mut`), or lend it to a consumer -
+    before the function returns, drops it or overwrites it.  Collections created empty in the function are not
+    tracked (leaving early with an empty collection loses nothing)."""
+    idx = mirlib.index()
+    for fid, fn in sorted(idx.items()):
+        if fn.get("gen") or fn.get("exp") or _is_test(fn):
+            continue
+        for L, ty in enumerate(fn["locals"]):
+            if L == 0 or L <= fn["argc"] or not isinstance(ty, str) or not COLLECTION.search(ty):
+                continue
+            received = False
+            for b in fn["blocks"]:
+                if b.get("cleanup"):
+                    continue
+                for s_ in b["stmts"]:
+                    if s_["dst"]["l"] == L and not s_["dst"].get("p") and s_["rv"]["k"] == "use":
+                        if any(isinstance(o, dict) and o.get("p") and o.get("mv") and o.get("l") != L for o in s_["rv"].get("ops", [])):
+                            received = True
+            if not received:
+                continue
+            ev = {}
+            for bi, b in enumerate(fn["blocks"]):
+                if b.get("cleanup"):
+                    continue
+                e = []
+                t = b["term"]
+                dropped = set()
+                if t["k"] == "call" and re.search(r" as (?:std|core)::ops::Drop>::drop$", t.get("pretty") or ""):
+                    dropped = {o["l"] for o in t.get("args", []) if isinstance(o, dict) and "l" in o}
+                for s_ in b["stmts"]:
+                    rv = s_["rv"]
+                    for o in rv.get("ops", []):
+                        if isinstance(o, dict) and o.get("l") == L and o.get("mv"):
+                            e.append("use")
+                    if rv["k"] == "ref" and rv["place"]["l"] == L:
+                        e.append("drop" if s_["dst"]["l"] in dropped else "use")
+                    if s_["dst"]["l"] == L and not s_["dst"].get("p"):
+                        e.append("def")
+                if t["k"] == "call":
+                    for o in t.get("args", []):
+                        if isinstance(o, dict) and o.get("l") == L and o.get("mv"):
+                            e.append("use")
+                if e:
+                    ev[bi] = e
+            bad = None
+            for bi, e in ev.items():
+                for i, x in enumerate(e):
+                    if x != "def" or "use" in e[i + 1:]:
+                        continue
+                    seen, st = set(), list(_succ(fn["blocks"][bi]["term"]))
+                    while st and not bad:
+                        b = st.pop()
+                        if b in seen:
+                            continue
+                        seen.add(b)
+                        blk = fn["blocks"][b]
+                        if blk.get("cleanup"):
+                            continue
+                        e2 = ev.get(b, [])
+                        if e2 and e2[0] == "use":
+                            continue
+                        if e2 and e2[0] == "def":
+                            bad = ("overwritten", b)
+                        elif e2 and e2[0] == "drop":
+                            bad = ("dropped", b)
+                        elif blk["term"]["k"] == "return":
+                            bad = ("function returns", b)
+                        elif blk["term"]["k"] == "drop" and blk["term"]["place"]["l"] == L and not blk["term"]["place"].get("p"):
+                            bad = ("dropped", b)
+                        else:
+                            st.extend(_succ(blk["term"]))
+            yield fn, L, ty, bad
+
+
+NEUTRAL_READS = re.compile(r"::(len|is_empty|capacity)$")
+FILLERS = re.compile(r"(?:std|alloc)::vec::Vec::<T(?:, A)?>::(push|append|extend|extend_from_slice|insert|resize|extend_from_within|reserve)$|as std::iter::Extend<[^>]*>>::extend$")
+
+
+REF_COLLECTION = re.compile(r"^&mut std::vec::Vec<(?:[a-z_0-9]+::)*report::Report>$")
+_ROLE_CACHE = {}
+
+
+def _ref_aliases(fn, is_root):
+    """locals of `fn` that hold a reference to the collection: is_root(place) says whether a borrowed place is it"""
+    alias = {}
+    changed = True
+    while changed:
+        changed = False
+        for b in fn["blocks"]:
+            for s_ in b["stmts"]:
+                d, rv = s_["dst"], s_["rv"]
+                if d.get("p") or d["l"] in alias:
+                    continue
+                if rv["k"] == "ref":
+                    pl = rv["place"]
+                    if is_root(pl):
+                        alias[d["l"]] = bool(rv.get("mut"))
+                        changed = True
+                    elif pl["l"] in alias and pl.get("p") == ["*"]:
+                        alias[d["l"]] = bool(rv.get("mut")) and alias[pl["l"]]
+                        changed = True
+                elif rv["k"] == "use" and len(rv.get("ops", [])) == 1 and isinstance(rv["ops"][0], dict) and rv["ops"][0].get("l") in alias and not rv["ops"][0].get("p"):
+                    alias[d["l"]] = alias[rv["ops"][0]["l"]]
+                    changed = True
+    return alias
+
+
+def _classify(pretty, callee, i, mutable, depth=0):
+    """what a call does to the collection whose reference is its i-th argument: 'fill', 'use' (drained, iterated,
+    shown) or None (only measured)"""
+    if re.search(r" as (?:std|core)::ops::Drop>::drop$", pretty):
+        return "drop"
+    if not mutable:
+        return None if NEUTRAL_READS.search(pretty) else "use"
+    if FILLERS.search(pretty):
+        return "fill" if i == 0 else "use"
+    fn = mirlib.index().get(callee)
+    if fn is None:
+        # a trait method called on a type parameter: what its implementations in the workspace do
+        impls = [fid for fid, f in mirlib.index().items() if f.get("trait_item") == callee and not f.get("gen")]
+        if not impls:
+            return "use"  # mem::take, drain, iter_mut, sort ..: not decided here
+        roles = set()
+        for fid in impls:
+            roles |= param_roles(fid, i + 1, depth + 1)
+    elif fn.get("gen"):
+        return "use"
+    else:
+        roles = param_roles(callee, i + 1, depth + 1)
+    if "drain" in roles:
+        return "use"
+    if "fill" in roles:
+        return "fill"
+    return None
+
+
+def param_roles(fid, P, depth=0):
+    """roles of the `&mut Vec<Report>` parameter P of workspace function fid: 'fill' (reports are added through it),
+    'drain' (its contents are moved elsewhere: it is the source of an append / extend, or handed to std code that takes it)"""
+    key = (fid, P)
+    if key in _ROLE_CACHE:
+        return _ROLE_CACHE[key]
+    _ROLE_CACHE[key] = set()
+    fn = mirlib.index().get(fid)
+    roles = set()
+    if fn is None or depth > 6 or P >= len(fn["locals"]) or not REF_COLLECTION.search(str(fn["locals"][P])):
+        return roles
+    alias = {P: True}
+    changed = True
+    while changed:
+        changed = False
+        for b in fn["blocks"]:
+            for s_ in b["stmts"]:
+                d, rv = s_["dst"], s_["rv"]
+                if d.get("p") or d["l"] in alias:
+                    continue
+                if rv["k"] == "ref" and rv["place"]["l"] in alias and rv["place"].get("p") == ["*"]:
+                    alias[d["l"]] = bool(rv.get("mut"))
+                    changed = True
+                elif rv["k"] == "use" and len(rv.get("ops", [])) == 1 and isinstance(rv["ops"][0], dict) and rv["ops"][0].get("l") in alias and not rv["ops"][0].get("p"):
+                    alias[d["l"]] = alias[rv["ops"][0]["l"]]
+                    changed = True
+    for b in fn["blocks"]:
+        t = b["term"]
+        if b.get("cleanup") or t["k"] != "call":
+            continue
+        for i, o in enumerate(t.get("args", [])):
+            if isinstance(o, dict) and o.get("l") in alias and not o.get("p"):
+                c = _classify(t.get("pretty") or "", t.get("callee"), i, alias[o["l"]], depth)
+                if c == "fill":
+                    roles.add("fill")
+                elif c == "use" and alias[o["l"]]:
+                    roles.add("drain")
+    _ROLE_CACHE[key] = roles
+    return roles
+
+
+def filled_collections():
+    """yield (fn, local, type, escape) for every local collection of reports created in a function and then filled
+    there - lent mutably to a function of the workspace that adds to it, or the receiver of push / append / extend.
+    From each such point every path must hand the collection on (move it, return it, append it to another one, lend
+    it to a consumer) before it is dropped or the function returns: a `?` between the filling and the handing-on loses
+    the reports gathered so far.  The branch on which `is_empty()` answered true is not followed."""
+    idx = mirlib.index()
+    for fid, fn in sorted(idx.items()):
+        if fn.get("gen") or fn.get("exp") or _is_test(fn):
+            continue
+        for L, ty in enumerate(fn["locals"]):
+            if L == 0 or L <= fn["argc"] or not isinstance(ty, str) or not COLLECTION.search(ty):
+                continue
+            alias = _ref_aliases(fn, lambda pl, L=L: pl["l"] == L and not pl.get("p"))
+            if not alias:
+                continue
+            ev = {}
+            empty_flags = set()
+            any_fill = False
+            for bi, b in enumerate(fn["blocks"]):
+                if b.get("cleanup"):
+                    continue
+                e = []
+                t = b["term"]
+                for s_ in b["stmts"]:
+                    rv = s_["rv"]
+                    for o in rv.get("ops", []):
+                        if isinstance(o, dict) and o.get("l") == L and o.get("mv") and not o.get("p"):
+                            e.append("use")
+                    if s_["dst"]["l"] == L and not s_["dst"].get("p"):
+                        e.append("def")
+                if t["k"] == "call":
+                    pretty = t.get("pretty") or ""
+                    for i, o in enumerate(t.get("args", [])):
+                        if not isinstance(o, dict):
+                            continue
+                        if o.get("l") == L and o.get("mv") and not o.get("p"):
+                            e.append("use")
+                        elif o.get("l") in alias and not o.get("p"):
+                            if pretty.endswith("::is_empty") and t.get("dst") and not t["dst"].get("p"):
+                                empty_flags.add(t["dst"]["l"])
+                            c = _classify(pretty, t.get("callee"), i, alias[o["l"]])
+                            if c:
+                                e.append(c)
+                    if t.get("dst") and t["dst"]["l"] == L and not t["dst"].get("p"):
+                        e.append("def")
+                any_fill = any_fill or "fill" in e
+                if e:
+                    ev[bi] = e
+            if not any_fill:
+                continue
+
+            def succ(blk):
+                t = blk["term"]
+                if t["k"] == "switch" and isinstance(t.get("discr"), dict) and t["discr"].get("l") in empty_flags and not t["discr"].get("p"):
+                    return [x[1] for x in t["targets"] if x[0] == 0]  # only the `not empty` edge can lose something
+                return _succ(t)
+
+            bad = None
+            for bi, e in ev.items():
+                for i, x in enumerate(e):
+                    if x != "fill" or bad:
+                        continue
+                    nxt = [y for y in e[i + 1:] if y in ("use", "def", "drop")]
+                    if nxt:
+                        if nxt[0] == "drop":
+                            bad = ("dropped", bi)
+                        continue
+                    seen, st = set(), list(succ(fn["blocks"][bi]))
+                    while st and not bad:
+                        b = st.pop()
+                        if b in seen:
+                            continue
+                        seen.add(b)
+                        blk = fn["blocks"][b]
+                        if blk.get("cleanup"):
+                            continue
+                        e2 = [y for y in ev.get(b, []) if y in ("use", "def", "drop")]
+                        if e2 and e2[0] in ("use", "def"):
+                            continue
+                        if e2 and e2[0] == "drop":
+                            bad = ("dropped", b)
+                        elif blk["term"]["k"] == "return":
+                            bad = ("function returns", b)
+                        elif blk["term"]["k"] == "drop" and blk["term"]["place"]["l"] == L and not blk["term"]["place"].get("p"):
+                            bad = ("dropped", b)
+                        else:
+                            st.extend(succ(blk))
+            yield fn, L, ty, bad
+
+
 def _name(fn, li):
     for k, v in (fn.get("names") or {}).items():
         if v == li or str(v) == str(li):
@@ -334,3 +608,29 @@ def rule_consumed(ctx, R):
             line = blk["term"].get("line") or (blk["stmts"][0]["line"] if blk["stmts"] else line)
         ctx.check(R, key, not bad, "moved on (pushed, converted, returned) on every path" if not bad else "on some path through %s this report is not moved anywhere (%s near line %s): it is dropped without being shown" % (fn["pretty"], bad[0], line), (fn["file"], line))
     ctx.floor(R, "single-report values examined", len(agg), 60)
+    # a collection of reports received from a callee is handed on along every path
+    agg2 = {}
+    for fn, L, ty, bad in received_collections():
+        key = "%s/received-reports/handed-on-every-path" % fn["pretty"]
+        if key not in agg2 or bad:
+            agg2[key] = (fn, L, bad)
+    for key, (fn, L, bad) in sorted(agg2.items()):
+        line = fn["line"]
+        if bad:
+            blk = fn["blocks"][bad[1]]
+            line = blk["term"].get("line") or (blk["stmts"][0]["line"] if blk["stmts"] else line)
+        ctx.check(R, key, not bad, "appended, moved or lent to a consumer on every path" if not bad else "on some path through %s the reports received from a callee are not handed on (%s near line %s): they are dropped without being shown" % (fn["pretty"], bad[0], line), (fn["file"], line))
+    ctx.floor(R, "received report collections examined", len(agg2), 4)
+    # a collection created and filled in a function is handed on along every path
+    agg3 = {}
+    for fn, L, ty, bad in filled_collections():
+        key = "%s/filled-reports/handed-on-every-path" % fn["pretty"]
+        if key not in agg3 or bad:
+            agg3[key] = (fn, L, bad)
+    for key, (fn, L, bad) in sorted(agg3.items()):
+        line = fn["line"]
+        if bad:
+            blk = fn["blocks"][bad[1]]
+            line = blk["term"].get("line") or (blk["stmts"][0]["line"] if blk["stmts"] else line)
+        ctx.check(R, key, not bad, "returned, moved, appended or lent to a consumer on every path after it was filled" if not bad else "on some path through %s the reports gathered in a local collection are not handed on (%s near line %s): they are dropped without being shown" % (fn["pretty"], bad[0], line), (fn["file"], line))
+    ctx.floor(R, "locally filled report collections examined", len(agg3), 10)
